@@ -94,8 +94,8 @@ static DeserializationError call(Fmt fmt, JsonDocument& doc, Input&& in, bool us
   if (useFilter) return deserializeMsgPack(doc, in, Filter(filter.as<JsonVariantConst>()), NestingLimit((uint8_t)lim));
   return deserializeMsgPack(doc, in, NestingLimit((uint8_t)lim));
 }
-template <class Ptr>
-static DeserializationError callSized(Fmt fmt, JsonDocument& doc, Ptr p, size_t n, bool useFilter, JsonDocument& filter,
+template <class Ptr, class Size>
+static DeserializationError callSized(Fmt fmt, JsonDocument& doc, Ptr p, Size n, bool useFilter, JsonDocument& filter,
                                       int lim) {
   using namespace DeserializationOption;
   if (fmt == JSON) {
@@ -113,10 +113,12 @@ static const char* KINDS[] = {"cstr", "sized", "std::string", "istream", "reader
 #ifdef ARDUINO
                               "ArduinoString", "ArduinoStream", "flash", "flash-sized",
 #endif
-                              "istream-chunked",
+                              "sized(int)", "vector<char>", "istream-chunked",
 };
 static const int NKINDS = sizeof KINDS / sizeof *KINDS;
-static const int K_CHUNKED = NKINDS - 1;
+static const int K_CHUNKED = NKINDS - 1;   // std::istream delivering a few bytes per refill
+static const int K_VECTOR = NKINDS - 2;    // any container with const_iterator (IteratorReader)
+static const int K_INTSIZE = NKINDS - 3;   // pointer + size given as int / unsigned short / unsigned char
 
 // a std::istream whose buffer hands the input out a few bytes at a time (a socket, a pipe, a hand-written
 // streambuf): in_avail() is small, multi-byte reads straddle refills
@@ -194,6 +196,26 @@ static Outcome runKind(Fmt fmt, int kind, const std::string& bytes, bool useFilt
   if (kind == 10 && fmt == MSGPACK && bytes.find('\0') != std::string::npos) { out.code = "skip"; return out; }
 #endif
   if (fmt == MSGPACK && zeroTerminated) { out.code = "skip"; return out; }
+  if (kind == K_VECTOR) {
+    if (bytes.size() % 2) {
+      std::vector<char> v(bytes.begin(), bytes.end());
+      v.shrink_to_fit();
+      err = call(fmt, doc, v, useFilter, filter, lim);
+    } else {
+      std::vector<unsigned char> v(bytes.begin(), bytes.end());
+      v.shrink_to_fit();
+      err = call(fmt, doc, v, useFilter, filter, lim);
+    }
+  }
+  if (kind == K_INTSIZE) {
+    std::unique_ptr<char[]> buf(new char[bytes.size() ? bytes.size() : 1]);
+    memcpy(buf.get(), bytes.data(), bytes.size());
+    const char* p = buf.get();
+    if (bytes.size() < 256 && bytes.size() % 3 == 0) err = callSized(fmt, doc, p, (unsigned char)bytes.size(), useFilter, filter, lim);
+    else if (bytes.size() < 65536 && bytes.size() % 3 == 1) err = callSized(fmt, doc, p, (unsigned short)bytes.size(), useFilter, filter, lim);
+    else if (bytes.size() < 2000000000) err = callSized(fmt, doc, p, (int)bytes.size(), useFilter, filter, lim);
+    else err = callSized(fmt, doc, p, bytes.size(), useFilter, filter, lim);
+  }
   if (kind == K_CHUNKED) {
     static const size_t sizes[] = {1, 3, 7, 2};
     ChunkBuf cb(bytes, sizes[bytes.size() % 4]);
@@ -539,7 +561,7 @@ int main(int argc, char** argv) {
         if (kind == 2 && idx % 2 == 0) pre = 3;
         Outcome r = runKind(fmt, kind, bytes, useFilter, f, lim, expCode == "Ok" ? &c.at("v") : nullptr,
                             o.boolean("nan"), o.boolean("inf"), weird, alloc, pre);
-        if (kind == 4 && variant == 0 && c.has("tag") && c.str("tag").compare(0, 5, "depth") == 0)
+        if (kind == 4 && variant == 0 && c.has("tag") && (c.str("tag").compare(0, 5, "depth") == 0 || c.str("tag").compare(0, 4, "flat") == 0))
           printf("STACK idx=%ld bytes=%ld\n", idx, r.stackDepth);
         if (r.code == "skip") continue;
         evals++;
